@@ -29,6 +29,8 @@ type Mode struct {
 	Name     string
 	Features luagen.Features
 	Weight   int
+	// Run overrides the config's RunOptions for programs of this mode (e.g. another stack configuration)
+	Run *luagen.RunOptions
 }
 
 type Config struct {
@@ -48,11 +50,13 @@ type Config struct {
 	Isolate bool
 }
 
-func run(cfg *Config, src string) *luagen.Outcome {
+func run(cfg *Config, src string) *luagen.Outcome { return runWith(cfg, src, cfg.RunOptions) }
+
+func runWith(cfg *Config, src string, ro *luagen.RunOptions) *luagen.Outcome {
 	if cfg.Isolate {
-		return luagen.RunIsolated(src, 20*time.Second, cfg.RunOptions)
+		return luagen.RunIsolated(src, 20*time.Second, ro)
 	}
-	return luagen.Run(src, cfg.RunOptions)
+	return luagen.Run(src, ro)
 }
 
 var uses = map[string]int{}
@@ -81,7 +85,11 @@ func Gen(cfg *Config, seed uint64, idx int) ([]luagen.Stmt, string) {
 func runOne(cfg *Config, w *lib.Writer, seed uint64, idx int) {
 	prog, m, g := gen(cfg, seed, idx)
 	src := luagen.PrintLua(prog)
-	out := run(cfg, src)
+	ro := cfg.RunOptions
+	if m.Run != nil {
+		ro = m.Run
+	}
+	out := runWith(cfg, src, ro)
 	for k, v := range g.Uses {
 		uses[k] += v
 	}
